@@ -34,6 +34,9 @@ theories/Event/Repr.vos theories/Event/Repr.vok theories/Event/Repr.required_vos
 theories/Event/Repr_obs.vo theories/Event/Repr_obs.glob theories/Event/Repr_obs.v.beautified theories/Event/Repr_obs.required_vo: theories/Event/Repr_obs.v theories/Base/Prelude.vo theories/Base/Bytes.vo theories/Event/Repr.vo
 theories/Event/Repr_obs.vio: theories/Event/Repr_obs.v theories/Base/Prelude.vio theories/Base/Bytes.vio theories/Event/Repr.vio
 theories/Event/Repr_obs.vos theories/Event/Repr_obs.vok theories/Event/Repr_obs.required_vos: theories/Event/Repr_obs.v theories/Base/Prelude.vos theories/Base/Bytes.vos theories/Event/Repr.vos
+theories/Event/Repr_proofs.vo theories/Event/Repr_proofs.glob theories/Event/Repr_proofs.v.beautified theories/Event/Repr_proofs.required_vo: theories/Event/Repr_proofs.v theories/Base/Prelude.vo theories/Base/Bytes.vo theories/Event/Repr.vo
+theories/Event/Repr_proofs.vio: theories/Event/Repr_proofs.v theories/Base/Prelude.vio theories/Base/Bytes.vio theories/Event/Repr.vio
+theories/Event/Repr_proofs.vos theories/Event/Repr_proofs.vok theories/Event/Repr_proofs.required_vos: theories/Event/Repr_proofs.v theories/Base/Prelude.vos theories/Base/Bytes.vos theories/Event/Repr.vos
 theories/Parse/Dispatch.vo theories/Parse/Dispatch.glob theories/Parse/Dispatch.v.beautified theories/Parse/Dispatch.required_vo: theories/Parse/Dispatch.v theories/Base/Prelude.vo
 theories/Parse/Dispatch.vio: theories/Parse/Dispatch.v theories/Base/Prelude.vio
 theories/Parse/Dispatch.vos theories/Parse/Dispatch.vok theories/Parse/Dispatch.required_vos: theories/Parse/Dispatch.v theories/Base/Prelude.vos
@@ -52,9 +55,9 @@ theories/Props/C04.vos theories/Props/C04.vok theories/Props/C04.required_vos: t
 theories/Props/C05.vo theories/Props/C05.glob theories/Props/C05.v.beautified theories/Props/C05.required_vo: theories/Props/C05.v theories/Base/Prelude.vo theories/Base/Bytes.vo theories/Event/Merge.vo theories/Event/Merge_proofs.vo theories/Event/Merge_order_proofs.vo
 theories/Props/C05.vio: theories/Props/C05.v theories/Base/Prelude.vio theories/Base/Bytes.vio theories/Event/Merge.vio theories/Event/Merge_proofs.vio theories/Event/Merge_order_proofs.vio
 theories/Props/C05.vos theories/Props/C05.vok theories/Props/C05.required_vos: theories/Props/C05.v theories/Base/Prelude.vos theories/Base/Bytes.vos theories/Event/Merge.vos theories/Event/Merge_proofs.vos theories/Event/Merge_order_proofs.vos
-theories/Props/C07.vo theories/Props/C07.glob theories/Props/C07.v.beautified theories/Props/C07.required_vo: theories/Props/C07.v theories/Base/Prelude.vo theories/Event/Repr.vo
-theories/Props/C07.vio: theories/Props/C07.v theories/Base/Prelude.vio theories/Event/Repr.vio
-theories/Props/C07.vos theories/Props/C07.vok theories/Props/C07.required_vos: theories/Props/C07.v theories/Base/Prelude.vos theories/Event/Repr.vos
+theories/Props/C07.vo theories/Props/C07.glob theories/Props/C07.v.beautified theories/Props/C07.required_vo: theories/Props/C07.v theories/Base/Prelude.vo theories/Base/Bytes.vo theories/Event/Repr.vo theories/Event/Repr_proofs.vo
+theories/Props/C07.vio: theories/Props/C07.v theories/Base/Prelude.vio theories/Base/Bytes.vio theories/Event/Repr.vio theories/Event/Repr_proofs.vio
+theories/Props/C07.vos theories/Props/C07.vok theories/Props/C07.required_vos: theories/Props/C07.v theories/Base/Prelude.vos theories/Base/Bytes.vos theories/Event/Repr.vos theories/Event/Repr_proofs.vos
 theories/Props/C14.vo theories/Props/C14.glob theories/Props/C14.v.beautified theories/Props/C14.required_vo: theories/Props/C14.v theories/Base/Prelude.vo theories/Parse/Dispatch.vo theories/Parse/Dispatch_proofs.vo
 theories/Props/C14.vio: theories/Props/C14.v theories/Base/Prelude.vio theories/Parse/Dispatch.vio theories/Parse/Dispatch_proofs.vio
 theories/Props/C14.vos theories/Props/C14.vok theories/Props/C14.required_vos: theories/Props/C14.v theories/Base/Prelude.vos theories/Parse/Dispatch.vos theories/Parse/Dispatch_proofs.vos
